@@ -35,6 +35,7 @@ const (
 	PolRTC      = "rtc"      // run to completion, random task order
 	PolOpB      = "opb"      // switch only at operation boundaries
 	PolExplicit = "explicit" // replay an explicit switch list
+	PolNap      = "nap"      // with probability Num/Den a task stalls where it is for 8..1024 steps while the others run
 )
 
 // Switch is one recorded scheduling decision: while task Task was in its
@@ -90,6 +91,7 @@ type task struct {
 	blkPos    int
 	explFin   int32 // explicit successor on finish (0 = none)
 	opSteps   uint64
+	napUntil  uint64
 }
 
 // Stats is what one simulated run measured.
@@ -110,6 +112,7 @@ type Stats struct {
 	GoSpawns        uint64
 	SyncOps         uint64
 	StarveGuards    uint64
+	Naps            uint64
 	Fingerprint     uint64
 	PairFP          []uint64 // hashes of (preempted site, resumed site)
 	Truncated       bool
@@ -326,11 +329,24 @@ func touches(me, i int32) bool {
 func pick(not int32) int32 {
 	var cand [MaxTasks]int32
 	n := 0
+	var sleeper int32 = -1
 	for i := int32(1); i < ntasks; i++ {
 		if i != not && tasks[i].state == stRunnable {
+			if tasks[i].napUntil > stepN {
+				if sleeper < 0 || tasks[i].napUntil < tasks[sleeper].napUntil {
+					sleeper = i
+				}
+				continue
+			}
 			cand[n] = i
 			n++
 		}
+	}
+	if n == 0 && sleeper >= 0 {
+		// everybody else is stalled: the one due first wakes up early
+		tasks[sleeper].napUntil = 0
+		cand[0] = sleeper
+		n = 1
 	}
 	if n == 0 {
 		return -1
@@ -395,6 +411,16 @@ func decide(t *task, site uint32, boundary bool) int32 {
 		return -1
 	case PolRTC:
 		return -1
+	case PolNap:
+		if sched.Den == 0 || uint32(rng.next()%uint64(sched.Den)) >= sched.Num {
+			return -1
+		}
+		to := pick(cur)
+		if to >= 0 {
+			t.napUntil = stepN + (8 << (rng.next() % 8))
+			stats.Naps++
+		}
+		return to
 	case PolExplicit:
 		for t.explPos < len(t.expl) {
 			e := &t.expl[t.explPos]
